@@ -140,4 +140,295 @@ theorem server_never_masks (s : W) (hi : Idle s) (hsrv : s.isServer = true) (t :
     wireKeys (writeMessage s t data).2 = wireKeys s ++ List.replicate ((wireKeys (writeMessage s t data).2).length - (wireKeys s).length) none := by
   first | exact WriterMore.server_never_masks .. | (apply WriterMore.server_never_masks <;> assumption)
 
+/-! ### non-vacuity -/
+section NonVacuity
+set_option linter.defProp false
+
+/-- "Hello" -/
+def witHello : Bytes := [72, 101, 108, 108, 111]
+/-- a client connection, write buffer 4096, no compression, two masking keys in the key source -/
+def witC : W := { newW false 4096 false false with keys := [0x37, 0xfa, 0x21, 0x3d, 1, 2, 3, 4] }
+
+/-- witness for `wire_decodable`: the constructor state is `Fresh` -/
+def witC_fresh : Fresh witC := ⟨rfl, rfl, rfl, rfl, rfl, by decide, by decide⟩
+
+/-- NextWriter(text); Write "Hel"; WriteControl(ping "hi"); WriteString "lo"; Close; WriteMessage(binary 01 02 03) -/
+def witOps : List Op :=
+  [.nextWriter 1 [] [], .write 0 [72, 101, 108] [] false, .writeControl 9 [104, 105] 0,
+   .write 0 [108, 111] [] true, .close 0 [] [], .writeMessage 2 [1, 2, 3] [] [] [] []]
+
+/-- witness for `wire_decodable`: every operation of the program satisfies the size conditions -/
+def witOps_ok : ∀ op ∈ witOps, OpOK witC.isServer op := by
+  intro op h
+  simp [witOps] at h
+  rcases h with rfl | rfl | rfl | rfl | rfl | rfl <;> simp [OpOK]
+
+/-- non-vacuity of `wire_decodable`: all hypotheses hold for the client (buffer 4096, no faults)
+    running the six-operation program `witOps`, and the theorem applies -/
+example : ∃ frs, Spec.decodeStream (run witC witOps).wire = some frs :=
+  wire_decodable witC witC_fresh rfl witOps witOps_ok
+
+/-- … and that run (witness of `wire_decodable`) really puts three frames on the wire: ping "hi", text "Hello", binary 01 02 03 -/
+example : (run witC witOps).wire =
+    [137, 130, 55, 250, 33, 61, 95, 147, 129, 133, 1, 2, 3, 4, 73, 103, 111, 104, 110, 130, 131, 55, 250, 33, 61, 54, 248, 34] := by
+  decide +kernel
+
+/-- two frames as a client encodes them: the RFC 6455 §5.7 masked "Hello" and a ping "hi" -/
+def witFrames : List Bytes :=
+  [encode false 129 ⟨0x37, 0xfa, 0x21, 0x3d⟩ witHello, encode false 137 ⟨1, 2, 3, 4⟩ [104, 105]]
+
+/-- witness for `frames_decode`: both are frames of a client -/
+def witFrames_ok : ∀ f ∈ witFrames, IsFrame false f := by
+  intro f h
+  simp [witFrames] at h
+  rcases h with rfl | rfl
+  · exact ⟨129, ⟨0x37, 0xfa, 0x21, 0x3d⟩, witHello, by decide, by decide, rfl⟩
+  · exact ⟨137, ⟨1, 2, 3, 4⟩, [104, 105], by decide, by decide, rfl⟩
+
+/-- non-vacuity of `frames_decode`: the hypothesis holds for two masked client frames, and the theorem applies -/
+example : ∃ frs, Spec.decodeStream witFrames.flatten = some frs ∧ frs.length = 2 :=
+  frames_decode false witFrames witFrames_ok
+
+/-- … the first of them (witness of `frames_decode`) is the RFC 6455 §5.7 example 81 85 37 fa 21 3d 7f 9f 4d 51 58 -/
+example : (witFrames.head?) = some [0x81, 0x85, 0x37, 0xfa, 0x21, 0x3d, 0x7f, 0x9f, 0x4d, 0x51, 0x58] := by decide
+
+/-- the freshly constructed client is `Idle` -/
+def witC_idle : Content.Idle witC :=
+  ⟨rfl, rfl, rfl, (fun m h => by cases h), ⟨by decide, by decide⟩, ⟨[], by decide, rfl⟩, rfl⟩
+
+/-- the client after one text message "Hello" went out: a connection between messages with a non-empty wire -/
+def witC1 : W := (writeMessage witC 1 witHello).2
+
+/-- witness for `message_roundtrip`, `writeMessage_roundtrip`, `writeControl_roundtrip`, `key_per_frame`:
+    the client is `Idle` again after the first message (by `writeMessage_roundtrip` on the fresh state) -/
+def witC1_idle : Content.Idle witC1 :=
+  (writeMessage_roundtrip witC witC_idle 1 (Or.inl rfl) witHello (by decide)).2.1
+
+/-- a message larger than the write buffer: 5000 bytes (two frames) -/
+def witBig : Bytes := List.replicate 5000 7
+/-- witness for the size bound `data.length < 2 ^ 40` -/
+def witBig_len : witBig.length < 2 ^ 40 := by rw [witBig, List.length_replicate]; decide
+
+/-- Write 01 02; WriteControl(ping "hi", deadline 5); WriteString 03 -/
+def witPieces : List Content.Piece := [.write [1, 2] false, .control 9 [104, 105] 5, .write [3] true]
+
+/-- witness for `message_roundtrip`: every piece is `ok` -/
+def witPieces_ok : ∀ p ∈ witPieces, p.ok := by
+  intro p h
+  simp [witPieces] at h
+  rcases h with rfl | rfl | rfl <;> simp [Content.Piece.ok]
+
+/-- non-vacuity of `message_roundtrip`: all hypotheses hold for the client (buffer 4096) that already sent
+    one message and now writes a binary message in two pieces with a ping in between, and the theorem applies -/
+example :
+    Content.Idle (run witC1 (Content.messageOps witC1 2 witPieces)) ∧
+    Content.wireMessages (run witC1 (Content.messageOps witC1 2 witPieces)) = Content.wireMessages witC1 ++ [⟨2, false, [1, 2, 3]⟩] ∧
+    Content.wireControls (run witC1 (Content.messageOps witC1 2 witPieces)) = Content.wireControls witC1 ++ [(9, [104, 105])] :=
+  message_roundtrip witC1 witC1_idle 2 (Or.inr rfl) witPieces witPieces_ok
+
+/-- non-vacuity of `writeMessage_roundtrip`: all hypotheses hold for the same client and a 5000-byte binary
+    message (larger than the buffer), and the theorem applies -/
+example :
+    (writeMessage witC1 (2 : Nat) witBig).1 = none ∧ Content.Idle (writeMessage witC1 (2 : Nat) witBig).2 ∧
+    Content.wireMessages (writeMessage witC1 (2 : Nat) witBig).2 = Content.wireMessages witC1 ++ [⟨2, false, witBig⟩] ∧
+    Content.wireControls (writeMessage witC1 (2 : Nat) witBig).2 = Content.wireControls witC1 :=
+  writeMessage_roundtrip witC1 witC1_idle 2 (Or.inr rfl) witBig witBig_len
+
+/-- non-vacuity of `writeControl_roundtrip`: all hypotheses hold for the same client and a pong "hi" with
+    deadline 5, and the theorem applies -/
+example :
+    (writeControl witC1 (10 : Nat) [104, 105] (5 : Nat)).1 = none ∧ Content.Idle (writeControl witC1 (10 : Nat) [104, 105] (5 : Nat)).2 ∧
+    Content.wireMessages (writeControl witC1 (10 : Nat) [104, 105] (5 : Nat)).2 = Content.wireMessages witC1 ∧
+    Content.wireControls (writeControl witC1 (10 : Nat) [104, 105] (5 : Nat)).2 = Content.wireControls witC1 ++ [(10, [104, 105])] :=
+  writeControl_roundtrip witC1 witC1_idle 10 (Or.inr rfl) [104, 105] (by decide) 5
+
+open WS.Content WS.WriterMore in
+/-- non-vacuity of `key_per_frame`: all hypotheses hold for the same client (`isServer = false`) and the
+    5000-byte message, and the theorem applies -/
+example : ∃ n, (writeMessage witC1 (2 : Nat) witBig).2.keyIdx = witC1.keyIdx + n ∧
+      wireKeys (writeMessage witC1 (2 : Nat) witBig).2 = wireKeys witC1 ++ (List.range n).map (fun i => some (keyAt witC1 (witC1.keyIdx + i))) ∧ 0 < n :=
+  key_per_frame witC1 witC1_idle (by decide +kernel) 2 (Or.inr rfl) witBig witBig_len
+
+/-- a server connection, write buffer 4096 -/
+def witS : W := newW true 4096 false false
+/-- the freshly constructed server is `Idle` -/
+def witS_idle : Content.Idle witS :=
+  ⟨rfl, rfl, rfl, (fun m h => by cases h), ⟨by decide, by decide⟩, ⟨[], by decide, rfl⟩, rfl⟩
+/-- the server after one text message "Hello" -/
+def witS1 : W := (writeMessage witS 1 witHello).2
+/-- witness for `server_never_masks`: the server is `Idle` again after the first message -/
+def witS1_idle : Content.Idle witS1 :=
+  (writeMessage_roundtrip witS witS_idle 1 (Or.inl rfl) witHello (by decide)).2.1
+
+open WS.Content WS.WriterMore in
+/-- non-vacuity of `server_never_masks`: all hypotheses hold for a server (buffer 4096) that already sent
+    one message and a 5000-byte message, and the theorem applies -/
+example : wireKeys (writeMessage witS1 (2 : Nat) witBig).2 = wireKeys witS1 ++ List.replicate ((wireKeys (writeMessage witS1 (2 : Nat) witBig).2).length - (wireKeys witS1).length) none :=
+  server_never_masks witS1 witS1_idle (by decide +kernel) 2 (Or.inr rfl) witBig witBig_len
+
+
+/-- a client connection, write buffer 4096, permessage-deflate negotiated, two masking keys in the source -/
+def witZ : W := { newW false 4096 false true with keys := [0x37, 0xfa, 0x21, 0x3d, 1, 2, 3, 4] }
+
+/-- witness for `wire_wellformed_partial`: the constructor state is `Fresh` -/
+def witZ_fresh : Fresh witZ := ⟨rfl, rfl, rfl, rfl, rfl, by decide, by decide⟩
+
+/-- deflate("Hello") with sync flush: f2 48 cd c9 c9 07 00 | 00 00 ff ff (RFC 7692 §7.2.3.1) -/
+def witHelloZ : Bytes := [0xf2, 0x48, 0xcd, 0xc9, 0xc9, 0x07, 0x00, 0x00, 0x00, 0xff, 0xff]
+/-- deflate(01 02 03) with sync flush -/
+def witBinZ : Bytes := [0x62, 0x64, 0x62, 0x06, 0x00, 0x00, 0x00, 0xff, 0xff]
+
+/-- NextWriter(text) — a flate writer; Write "Hello" (flate pushes f2 48 cd); WriteControl(ping "hi");
+    Close (flate flushes c9 c9 | 07 00; the environment's full stream is `witHelloZ`);
+    WriteMessage(binary 01 02 03) compressed to `witBinZ` -/
+def witZOps : List Op :=
+  [.nextWriter 1 [] [],
+   .write 0 witHello [[0xf2, 0x48, 0xcd]] false,
+   .writeControl 9 [104, 105] 0,
+   .close 0 [[0xc9, 0xc9], [0x07, 0x00]] witHelloZ,
+   .writeMessage 2 [1, 2, 3] [] [] [[0x62, 0x64, 0x62, 0x06, 0x00]] witBinZ]
+
+/-- witness for `wire_wellformed_partial`: the program is `Admissible` -/
+def witZOps_adm : WireWF.Admissible witZ witZOps := by
+  refine ⟨?_, trivial, ?_, trivial, trivial, trivial, ?_, trivial, ?_, trivial, trivial⟩
+  · simp [OpOK]
+  · simp [OpOK, witHello]
+  · simp [OpOK]
+  · simp [OpOK]
+
+/-- decidable equality of handles (local helper for `decide +kernel`) -/
+@[instance_reducible] def witDecEqHandle : DecidableEq Handle := fun a b =>
+  match a, b with
+  | .plain x, .plain y => if h : x = y then isTrue (h ▸ rfl) else isFalse (fun e => by cases e; exact h rfl)
+  | .plain _, .flate .. => isFalse (fun e => by cases e)
+  | .flate .., .plain _ => isFalse (fun e => by cases e)
+  | .flate a1 a2 a3 a4, .flate b1 b2 b3 b4 =>
+    if h : a1 = b1 ∧ a2 = b2 ∧ a3 = b3 ∧ a4 = b4 then isTrue (by obtain ⟨rfl, rfl, rfl, rfl⟩ := h; rfl)
+    else isFalse (fun e => by cases e; exact h ⟨rfl, rfl, rfl, rfl⟩)
+
+attribute [local instance] witDecEqHandle
+
+/-- the handle a successful NextWriter returned (helper for `decide +kernel`) -/
+def witOkVal : Except WErr Nat → Option Nat
+  | .ok h => some h
+  | .error _ => none
+
+/-- witness for `wire_wellformed_partial`: `EnvAdmissible` holds non-trivially — the program closes two
+    flate writers (handle 0 explicitly, handle 1 inside WriteMessage) and both times the stream ends in
+    00 00 ff ff and its front is what went downstream -/
+def witZOps_env : WireWF.EnvAdmissible witZ witZOps := by
+  refine ⟨?_, trivial, trivial, ?_, ?_, trivial⟩
+  · intro h hh; cases hh
+  · intro i sent hh
+    have h' : (run witZ (witZOps.take 3)).handles[0]? = some (Handle.flate 0 true none [0xf2, 0x48, 0xcd]) := by decide +kernel
+    have h2 := h'.symm.trans hh
+    cases h2
+    exact ⟨by decide, by decide⟩
+  · refine ⟨?_, ?_⟩
+    · intro h hh
+      have h' : (run witZ (witZOps.take 4)).writer = none := by decide +kernel
+      exact absurd (h'.symm.trans hh) (by simp)
+    · intro h s1 heq
+      have e1 : witOkVal (nextWriter (run witZ (witZOps.take 4)) 2 [] []).1 = some 1 := by decide +kernel
+      have e2 : witOkVal (nextWriter (run witZ (witZOps.take 4)) 2 [] []).1 = some h := congrArg (fun p => witOkVal p.1) heq
+      have e3 : (nextWriter (run witZ (witZOps.take 4)) 2 [] []).2 = s1 := congrArg Prod.snd heq
+      obtain rfl : h = 1 := by
+        have := e2.symm.trans e1
+        cases this; rfl
+      subst e3
+      intro i sent hh
+      have h' : (hWrite (nextWriter (run witZ (witZOps.take 4)) 2 [] []).2 1 [1, 2, 3] [[0x62, 0x64, 0x62, 0x06, 0x00]]).2.handles[1]?
+          = some (Handle.flate 1 true none [0x62, 0x64, 0x62, 0x06, 0x00]) := by decide +kernel
+      have h2 := h'.symm.trans hh
+      cases h2
+      exact ⟨by decide, by decide⟩
+
+/-- non-vacuity of `wire_wellformed_partial`: all hypotheses hold for the client (buffer 4096, compression
+    negotiated, no faults) running the five-operation program `witZOps`, and the theorem applies -/
+example : ∃ fs, Spec.decodeStream (run witZ witZOps).wire = some fs ∧ Spec.WellFormed ⟨true, true⟩ fs :=
+  wire_wellformed_partial witZ witZ_fresh rfl witZOps witZOps_adm witZOps_env
+
+/-- the same connection with a transport fault script: the 4th transport call (the Write of the
+    text frame) accepts 5 bytes and fails -/
+def witZF : W := { witZ with faults := [(3, .short 5 7)] }
+
+/-- witness for `wire_wellformed_prefix_partial` -/
+def witZF_fresh : Fresh witZF := ⟨rfl, rfl, rfl, rfl, rfl, by decide, by decide⟩
+
+/-- witness for `wire_wellformed_prefix_partial`: the program is `Admissible` from the faulty connection -/
+def witZFOps_adm : WireWF.Admissible witZF witZOps := by
+  refine ⟨?_, trivial, ?_, trivial, trivial, trivial, ?_, trivial, ?_, trivial, trivial⟩
+  · simp [OpOK]
+  · simp [OpOK, witHello]
+  · simp [OpOK]
+  · simp [OpOK]
+
+/-- witness for `wire_wellformed_prefix_partial`: `EnvAdmissible` (the Close of handle 0 passes both checks
+    before the transport fails; the later WriteMessage gets no writer any more) -/
+def witZFOps_env : WireWF.EnvAdmissible witZF witZOps := by
+  refine ⟨?_, trivial, trivial, ?_, ?_, trivial⟩
+  · intro h hh; cases hh
+  · intro i sent hh
+    have h' : (run witZF (witZOps.take 3)).handles[0]? = some (Handle.flate 0 true none [0xf2, 0x48, 0xcd]) := by decide +kernel
+    have h2 := h'.symm.trans hh
+    cases h2
+    exact ⟨by decide, by decide⟩
+  · refine ⟨?_, ?_⟩
+    · intro h hh
+      have h' : (run witZF (witZOps.take 4)).writer = none := by decide +kernel
+      exact absurd (h'.symm.trans hh) (by simp)
+    · intro h s1 heq
+      have e1 : witOkVal (nextWriter (run witZF (witZOps.take 4)) 2 [] []).1 = none := by decide +kernel
+      have e2 : witOkVal (nextWriter (run witZF (witZOps.take 4)) 2 [] []).1 = some h := congrArg (fun p => witOkVal p.1) heq
+      exact absurd (e1.symm.trans e2) (by simp)
+
+/-- the fault really strikes (witness of `wire_wellformed_prefix_partial`): the ping frame and 5 bytes of the text frame are on the wire, the error is sticky -/
+example : (run witZF witZOps).wire = [137, 130, 55, 250, 33, 61, 95, 147, 193, 135, 1, 2, 3] ∧
+    (run witZF witZOps).writeErr = some (.transport 7) := by decide +kernel
+
+/-- non-vacuity of `wire_wellformed_prefix_partial`: all hypotheses hold for the client with a short write
+    at the 4th transport call running `witZOps`, and the theorem applies -/
+example : Spec.WellFormed ⟨true, true⟩ (Spec.decodePrefixAux (run witZF witZOps).wire.length (run witZF witZOps).wire) :=
+  wire_wellformed_prefix_partial witZF witZF_fresh witZOps witZFOps_adm witZFOps_env
+
+/-! compressed messages: adapted from the witness of the identical theorem in WS/Props/C15.lean -/
+open WS.Content WS.CompressedWrite in
+/-- witness for `compressed_message_roundtrip`: the fresh negotiated client is `IdleZ` -/
+def witZ_idle : IdleZ witZ :=
+  { healthy := rfl, noFaults := rfl, noWriter := rfl
+    dead := by intro m h; cases h
+    size := by decide
+    whole := ⟨[], rfl, rfl⟩
+    nego := rfl, enabled := rfl }
+
+/-- "Hel" ++ "lo" written in two calls; flate pushes the RFC 7692 §7.2.3.1 deflate stream of "Hello"
+    (f2 48 cd c9 c9 07 00) downstream in four chunks: one during each Write, two during Close -/
+def witWrites : List (Bytes × List Bytes) :=
+  [([0x48, 0x65, 0x6c], [[0xf2, 0x48]]), ([0x6c, 0x6f], [[0xcd]])]
+def witDnC : List Bytes := [[0xc9, 0xc9], [0x07, 0x00]]
+
+def witWrites_sz : ∀ w ∈ witWrites, ∀ c ∈ w.2, c.length < 2 ^ 40 := by decide
+def witDnC_sz : ∀ c ∈ witDnC, c.length < 2 ^ 40 := by decide
+def witHelloZ_tail : 4 ≤ witHelloZ.length ∧ witHelloZ.drop (witHelloZ.length - 4) = sync4 := by decide
+open WS.CompressedWrite in
+def witHelloZ_cons : pushed witWrites witDnC = witHelloZ.take (witHelloZ.length - 4) := by decide
+
+open WS.Content WS.CompressedWrite in
+/-- non-vacuity of `compressed_message_roundtrip`: all hypotheses hold for a client (buffer 4096,
+    compression negotiated and enabled) writing the text message "Hello" in two pieces with flate's
+    output in four chunks, and the theorem applies -/
+example :
+    let s' := run witZ (zOps witZ 1 witWrites witDnC witHelloZ)
+    IdleZ s' ∧
+    wireMessages s' = wireMessages witZ ++ [⟨1, true, witHelloZ.take (witHelloZ.length - 4)⟩] ∧
+    wireControls s' = wireControls witZ :=
+  compressed_message_roundtrip witZ witZ_idle 1 (Or.inl rfl) witWrites witDnC witHelloZ
+    witWrites_sz witDnC_sz witHelloZ_tail witHelloZ_cons
+
+/-- … and the wire of that run (witness of `compressed_message_roundtrip`) is one masked FIN+RSV1 text frame of 7 bytes -/
+example : (run witZ (CompressedWrite.zOps witZ 1 witWrites witDnC witHelloZ)).wire =
+    [0xc1, 0x87, 0x37, 0xfa, 0x21, 0x3d, 197, 178, 236, 244, 254, 253, 33] := by decide +kernel
+
+end NonVacuity
+
 end WS.Props.C02
